@@ -116,7 +116,15 @@ impl Function {
 impl Var {
     pub uninterp spec fn s_ty(&self) -> TypeId;
     #[verifier::external_body] pub fn ty(&self) -> (r: TypeId) ensures r == self.s_ty() { unimplemented!() }
+    // the rest of Var's getters (env completeness rule)
+    pub uninterp spec fn s_has_val(&self) -> bool;
+    pub uninterp spec fn s_is_const(&self) -> bool;
+    #[verifier::external_body] pub fn val(&self) -> (r: Option<&VarType>) ensures r.is_some() == self.s_has_val() { unimplemented!() }
+    #[verifier::external_body] pub fn is_const(&self) -> (r: bool) ensures r == self.s_is_const() { unimplemented!() }
+    #[verifier::external_body] pub fn name(&self) -> (r: &str) { unimplemented!() }
+    #[verifier::external_body] pub fn mangled_name(&self) -> (r: Option<&str>) { unimplemented!() }
 }
+#[verifier::external_body] pub struct VarType { _p: core::marker::PhantomData<()> }
 #[verifier::external_body] pub struct Item { _p: core::marker::PhantomData<()> }
 impl Item {
     pub uninterp spec fn s_kind(&self) -> ItemKind;
